@@ -3,6 +3,6 @@
 P="$1"; C="$2"; T="${3:-quick}"
 cd /repo || exit 9
 git diff --quiet || { echo "repo dirty"; exit 9; }
-if git apply --check "$P" 2>/dev/null; then git apply "$P"; elif git apply --3way "$P" 2>/dev/null; then git reset -q; else echo "PATCH-DOES-NOT-APPLY $P"; exit 8; fi
+if git apply --check "$P" 2>/dev/null; then git apply "$P"; elif git apply --3way "$P" >/dev/null 2>&1; then git reset -q; else git reset -q --hard; echo "PATCH-DOES-NOT-APPLY $P"; exit 8; fi
 cd /verif && ./check "$C" --tier "$T" 2>&1 | grep -E "^(VIOLATION|HELD|INCONCLUSIVE|KNOWN|NOTE)" | cut -c1-300
-cd /repo && git checkout -- . && git status --short | grep -v '^??' | head -3
+cd /repo && git reset -q --hard && git status --short | grep -v '^??' | head -3
